@@ -123,6 +123,7 @@ type CConn struct {
 	dotu   bool
 	inbox  []*Reply
 	all    []*Reply
+	paused bool  // the client does not read replies (its receive buffer fills up)
 	rerr   error // transport error seen by the reader (EOF = server closed)
 	nbytes int64
 	msize  uint32
@@ -159,6 +160,11 @@ func (c *CConn) reader() {
 	buf := make([]byte, 0, 1<<16)
 	tmp := make([]byte, 1<<20)
 	for {
+		c.mu.Lock()
+		for c.paused {
+			c.cond.Wait()
+		}
+		c.mu.Unlock()
 		n, err := c.Cli.Read(tmp)
 		if n > 0 {
 			buf = append(buf, tmp[:n]...)
@@ -213,6 +219,15 @@ func (c *CConn) push(r *Reply) {
 	c.mu.Lock()
 	c.inbox = append(c.inbox, r)
 	c.all = append(c.all, r)
+	c.cond.Broadcast()
+	c.mu.Unlock()
+}
+
+// PauseReads makes the client stop reading replies (true) or resume (false); with Cli.Cap set the server's
+// writer then blocks in its transport write, as on a socket whose peer does not drain it.
+func (c *CConn) PauseReads(on bool) {
+	c.mu.Lock()
+	c.paused = on
 	c.cond.Broadcast()
 	c.mu.Unlock()
 }
